@@ -255,6 +255,9 @@ func checkMain(args []string) int {
 	// expected (named) obligations must have been generated
 	have := map[string]bool{}
 	for _, o := range obls {
+		for have[o.Name] { // never let two obligations share a name (results are keyed by name)
+			o.Name += "'"
+		}
 		have[o.Name] = true
 	}
 	for _, e := range ps.Expect {
